@@ -32,6 +32,7 @@ type clientRec struct {
 	msgSent     bool
 	msgErr      error
 	conn        *rt.Conn
+	dropped     bool
 }
 
 type st struct {
@@ -87,7 +88,7 @@ func body(nclients int, withInproc bool) func(x *harness.X) {
 		sendMsg := rt.Choose(2) == 1
 		// what the last client does: a normal session, a handshake the server refuses
 		// (unknown role), or a handshake that stalls after the server's first answer
-		lastKind := []string{"normal", "refused", "stalled"}[rt.Choose(3)]
+		lastKind := []string{"normal", "refused", "stalled", "drops"}[rt.Choose(4)]
 		s.lastKind = lastKind
 		mux := &lime.EnvelopeMux{}
 		mux.MessageHandlerFunc(nil, func(ctx context.Context, m *lime.Message, snd lime.Sender) error {
@@ -207,6 +208,14 @@ func body(nclients int, withInproc bool) func(x *harness.X) {
 					c.msgErr = cc.SendMessage(ctx, lib.Msg(c.name+"-m", "hello"))
 					c.msgSent = true
 				}
+				if kind == "drops" {
+					// the client goes away without finishing: the session was established, so
+					// the server owes it exactly one Finished callback
+					c.dropped = true
+					x.Obs("%s drops its connection", c.name)
+					_ = cc.Close()
+					return
+				}
 				drainAll(cc) // keeps consuming until the session ends
 				c.streamsDone = true
 				c.finalState = cc.State()
@@ -293,7 +302,11 @@ func final(x *harness.X, res *rt.Result) {
 		}
 	}
 	for _, c := range s.clients {
-		if c.established {
+		if c.established && c.dropped {
+			if s.est[c.sid] != 1 || s.fin[c.sid] != 1 {
+				x.Failf(fmt.Sprintf("callbacks:est%d-fin%d:dropped", s.est[c.sid], s.fin[c.sid]), "session %s of %s was established and then dropped by the client: Established fired %d times, Finished %d times %s", c.sid, c.name, s.est[c.sid], s.fin[c.sid], hist)
+			}
+		} else if c.established {
 			if !c.streamsDone || c.finalState != lime.SessionStateFinished {
 				x.Failf("client-not-finished", "%s had an established session but observed state %v (streams ended=%v) %s", c.name, c.finalState, c.streamsDone, hist)
 			}
@@ -356,7 +369,7 @@ func main() {
 	harness.Main(harness.Check{
 		Property: "C18",
 		Level:    "model_checking",
-		Rule:     "1-2 clients (real ClientChannel over the real TCP transport on virtual pipes; optionally one over the in-process listener); the last client is a normal session, one the server refuses (unknown role) or a raw client whose handshake stalls after the server's first answer x moment at which Server.Close is released {start-up, a client dialled, a client established, traffic handled} x {idle, one message} as data choices; all schedules within the deviation bound (delay bounding) from ListenAndServe's start; distinct outcome = distinct observation log",
+		Rule:     "1-2 clients (real ClientChannel over the real TCP transport on virtual pipes; optionally one over the in-process listener); the last client is a normal session, one the server refuses (unknown role), a raw client whose handshake stalls after the server's first answer, or a client that drops its connection once established x moment at which Server.Close is released {start-up, a client dialled, a client established, traffic handled} x {idle, one message} as data choices; all schedules within the deviation bound (delay bounding) from ListenAndServe's start; distinct outcome = distinct observation log",
 		Assume:   []string{"state pruning is off (Server.shutdown and Client fields are not behind hooked operations)", "WebSocket/real TCP listeners are not explored under the scheduler"},
 		Scenarios: []harness.Scenario{
 			mk("1client", 1, false, 1, 2),
